@@ -226,6 +226,31 @@ for _cls in ("S3Limits",):
         inline=True,
     )
 
+
+
+def _s3_writer_limits(endpoint_url, profile, upload_id, via):
+    """the limits every S3 writer object reports, however it was configured: the uploader itself and the lazily
+    initialising writer handed to workers (built directly: `MultiPartUpload.writer` only adds the cluster hand-shake)"""
+    m = repo(S3)
+    mpu = m.MultiPartUpload("bucket", "some/key.tif", uploadId=upload_id, profile=profile, endpoint_url=endpoint_url)
+    w = mpu if via == "uploader" else m.DelayedS3Writer(mpu, {"ContentType": "image/tiff"})
+    MiB, GiB = 1 << 20, 1 << 30
+    claim(w.min_write_sz >= 5 * MiB, "non-final parts are at least S3's 5 MiB minimum")
+    claim(w.max_write_sz <= 5 * GiB, "parts never exceed S3's 5 GiB maximum")
+    claim(w.max_write_sz > w.min_write_sz, "maximum part size above the minimum")
+    claim(1 <= w.min_part and w.max_part <= 10_000, "part numbers within S3's 1 .. 10000")
+    claim(w.max_part > w.min_part, "maximum part number above the minimum")
+
+
+lemma(
+    "s3.limits_of_every_writer",
+    ["C18"],
+    inputs=dict(endpoint_url=OneOf(None, "", "http://localhost:9000"), profile=OneOf(None, "dev"), upload_id=OneOf("", "UPLOAD-1"), via=OneOf("uploader", "delayed-writer")),
+    body=_s3_writer_limits,
+    unstub=[f"{S3}:S3Limits.min_write_sz"],
+    note="EXHAUSTIVE over the configuration that reaches the writer objects (24 combinations; the values are constants of the code)",
+)
+
 # ---- MPUFileSink ---------------------------------------------------------------------------------------------------------------
 
 
